@@ -20,6 +20,8 @@ def main(tier, seed):
     # spec -> code: programs enumerated by TLC (spec/ProgSpace.tla) with their exact moment sequences
     ps_items, ps_cov = progspace.items(2 if quick else 3, 4, sample=30 if quick else None, rng=random.Random(seed))
     items += ps_items
+    # Normal / Uniform / Laplace draws with state-dependent location (decided through moment-matched finite laws)
+    items += C.generated(seed + 11, 10 if quick else 150, profile={"cont": True, "params": False, "sym_init": False}, ngoals=4, prefix="genk")
 
     def post(ctx):
         run = ctx["run"]
